@@ -52,6 +52,10 @@ def run_stream(ctx, r, idx):
 		ctx.count("streams_across_the_hyperframe_wrap")
 	for b in range(nb):
 		# commands between bursts
+		for j in range(n):
+			if not bench.models[j].running and r.random() < 0.12:
+				if not cmd(j, "POWERON"):
+					return
 		x = r.random()
 		if x < 0.12:
 			i = r.randrange(n)
@@ -81,6 +85,13 @@ def run_stream(ctx, r, idx):
 		elif x < 0.25:
 			if not cmd(r.randrange(n), "SETFORMAT %d" % r.choice((0, 1, 0, 1, 2, 5, 15))):
 				return
+		elif x < 0.28:
+			# a transceiver that is powered off (still tuned) receives nothing: bursts sent meanwhile neither reach its L1
+			# nor use up its drop budget
+			i = r.randrange(n)
+			if not cmd(i, "POWEROFF" if bench.models[i].running else "POWERON"):
+				return
+			ctx.count("power_commands_between_bursts")
 		# one burst
 		s = r.randrange(n)
 		if r.random() < 0.04:
@@ -102,6 +113,13 @@ def run_stream(ctx, r, idx):
 		rcpt = bench.recipients(s, fn)
 		acc, got = bench.transmit(s, m)
 		ctx.count("bursts")
+		if not bench.models[s].running:
+			if acc or any(got.values()):
+				ctx.violation("transmit", {"history": log[-15:], "burst": trxd.brief(m)},
+					what = "burst handed to a transceiver that is powered off: %s" % ("accepted" if acc else "datagrams sent to an L1"))
+				return
+			ctx.count("bursts_to_an_idle_sender")
+			continue
 		if not acc:
 			ctx.violation("transmit", {"history": log[-15:], "burst": trxd.brief(m)},
 				what = "valid burst not accepted by the sender")
